@@ -2,58 +2,70 @@
 From Coq Require Import Sorting.Permutation Sorting.Sorted.
 From GV Require Import Tables.ObsTypes Tables.Lookup Tables.RegList.
 
-Lemma insert_perm x l : Permutation (x :: l) (insert_stable x l).
-Proof.
-  induction l as [|y r IH]; cbn [insert_stable]; [reflexivity|].
-  destruct (r_sort x <=? r_sort y); [reflexivity|].
-  etransitivity; [apply perm_swap|]. now apply perm_skip.
-Qed.
+Section SortByFacts.
+  Context {A : Type} (key : A -> Z).
 
-Theorem sort_perm l : Permutation l (sort_stable l).
-Proof.
-  induction l as [|x r IH]; cbn [sort_stable]; [reflexivity|].
-  etransitivity; [apply perm_skip, IH|apply insert_perm].
-Qed.
+  Lemma insert_perm x l : Permutation (x :: l) (insert_by key x l).
+  Proof.
+    induction l as [|y r IH]; cbn [insert_by]; [reflexivity|].
+    destruct (key x <=? key y); [reflexivity|].
+    etransitivity; [apply perm_swap|]. now apply perm_skip.
+  Qed.
+
+  Theorem sort_by_perm l : Permutation l (sort_by key l).
+  Proof.
+    induction l as [|x r IH]; cbn [sort_by]; [reflexivity|].
+    etransitivity; [apply perm_skip, IH|apply insert_perm].
+  Qed.
+
+  Definition le_by (a b : A) : Prop := key a <= key b.
+
+  Lemma insert_sorted x l : Sorted le_by l -> Sorted le_by (insert_by key x l).
+  Proof.
+    induction l as [|y r IH]; intros H; cbn [insert_by]; [repeat constructor|].
+    destruct (Z.leb_spec (key x) (key y)) as [L|G].
+    - constructor; [exact H|constructor; unfold le_by; lia].
+    - inversion H as [|? ? Hs Hh]; subst. constructor; [now apply IH|].
+      destruct r as [|z r']; cbn [insert_by].
+      + constructor. unfold le_by. lia.
+      + destruct (key x <=? key z); constructor; unfold le_by.
+        * lia.
+        * inversion Hh; subst. assumption.
+  Qed.
+
+  Theorem sort_by_sorted l : Sorted le_by (sort_by key l).
+  Proof. induction l as [|x r IH]; cbn [sort_by]; [constructor|now apply insert_sorted]. Qed.
+
+  Definition with_key_by (k : Z) (l : list A) : list A := filter (fun r => key r =? k) l.
+
+  Lemma insert_with_key k x l : Sorted le_by l ->
+    with_key_by k (insert_by key x l) = with_key_by k (x :: l).
+  Proof.
+    induction l as [|y r IH]; intros H; [reflexivity|]. cbn [insert_by].
+    destruct (Z.leb_spec (key x) (key y)) as [L|G]; [reflexivity|].
+    inversion H as [|? ? Hs Hh]; subst.
+    cbn [with_key_by filter]. unfold with_key_by in IH. rewrite (IH Hs). cbn [filter].
+    destruct (key x =? k) eqn:Ex, (key y =? k) eqn:Ey; try reflexivity.
+    lia.
+  Qed.
+
+  Theorem sort_by_stable k l : with_key_by k (sort_by key l) = with_key_by k l.
+  Proof.
+    induction l as [|x r IH]; [reflexivity|]. cbn [sort_by].
+    rewrite insert_with_key by apply sort_by_sorted.
+    cbn [with_key_by filter]. unfold with_key_by in IH. now rewrite IH.
+  Qed.
+End SortByFacts.
 
 Definition key_le (a b : reg) : Prop := r_sort a <= r_sort b.
-
-Lemma insert_sorted x l : Sorted key_le l -> Sorted key_le (insert_stable x l).
-Proof.
-  induction l as [|y r IH]; intros H; cbn [insert_stable]; [repeat constructor|].
-  destruct (Z.leb_spec (r_sort x) (r_sort y)) as [L|G].
-  - constructor; [exact H|constructor; unfold key_le; lia].
-  - inversion H as [|? ? Hs Hh]; subst. constructor; [now apply IH|].
-    destruct r as [|z r']; cbn [insert_stable].
-    + constructor. unfold key_le. lia.
-    + destruct (r_sort x <=? r_sort z); constructor; unfold key_le.
-      * lia.
-      * inversion Hh; subst. assumption.
-Qed.
-
-(* ascending by sort key *)
-Theorem sort_sorted l : Sorted key_le (sort_stable l).
-Proof. induction l as [|x r IH]; cbn [sort_stable]; [constructor|now apply insert_sorted]. Qed.
-
-(* stability: for every key, the elements with that key appear in their input order *)
 Definition with_key (k : Z) (l : list reg) : list reg := filter (fun r => r_sort r =? k) l.
 
-Lemma insert_with_key k x l : Sorted key_le l ->
-  with_key k (insert_stable x l) = with_key k (x :: l).
-Proof.
-  induction l as [|y r IH]; intros H; [reflexivity|]. cbn [insert_stable].
-  destruct (Z.leb_spec (r_sort x) (r_sort y)) as [L|G]; [reflexivity|].
-  inversion H as [|? ? Hs Hh]; subst.
-  cbn [with_key filter]. unfold with_key in IH. rewrite (IH Hs). cbn [filter].
-  destruct (r_sort x =? k) eqn:Ex, (r_sort y =? k) eqn:Ey; try reflexivity.
-  lia.
-Qed.
-
+Theorem sort_perm l : Permutation l (sort_stable l).
+Proof. apply sort_by_perm. Qed.
+Theorem sort_sorted l : Sorted key_le (sort_stable l).
+Proof. apply (sort_by_sorted r_sort). Qed.
 Theorem sort_stable_keys k l : with_key k (sort_stable l) = with_key k l.
-Proof.
-  induction l as [|x r IH]; [reflexivity|]. cbn [sort_stable].
-  rewrite insert_with_key by apply sort_sorted.
-  cbn [with_key filter]. unfold with_key in IH. now rewrite IH.
-Qed.
+Proof. apply (sort_by_stable r_sort). Qed.
 
 (* ---- the list under any operation history ---- *)
 
